@@ -2,7 +2,7 @@
    The generated module text differs between the two ways only in the binding of the name
    `environment` (tie K-gen checks that on every generated template); these theorems say that
    this difference is not observable once Template._from_namespace has run. *)
-From Coq Require Import List NArith Bool.
+From Coq Require Import List NArith Bool Arith.
 Import ListNotations.
 From JV Require Import Model.Pre Proofs.PreProofs.
 
@@ -47,6 +47,33 @@ Theorem C31_load_agrees_with_source : forall (sha1_hex : str -> str) (normal : s
   module_load sha1_hex normal (compile_archive sha1_hex names) name = source_load normal names name.
 Proof. intros sha1_hex normal names name Hinj Hn. exact (load_agrees sha1_hex Hinj normal names name Hn). Qed.
 Print Assumptions C31_load_agrees_with_source.
+
+(* one ModuleLoader object used by any number of environments, any history of loads (also of the
+   same template): the k-th load gets namespace number k of its own, the final namespaces are
+   exactly the environments of the loads in order — no load rebinds the `environment` of a template
+   handed out earlier — and therefore every function of the k-th Template, called at any later
+   time, runs with the environment that loaded it (digest without ".": it is hexadecimal) *)
+Theorem C31_shared_loader_own_environment :
+  forall (E C R : Type) (sha1_hex : str -> str) (package_name : str) (h : list (str * E)),
+  (forall n, ~ In 46%N (sha1_hex n)) ->
+  let (st, ids) := loads sha1_hex package_name l_empty h in
+  ids = seq 0 (length h) /\
+  l_nss st = map (fun ne => Some (snd ne)) h /\
+  forall k n e (body : E -> C -> R) (c : C) fd,
+    nth_error h k = Some (n, e) -> exec_def true None body = Some fd ->
+    call fd (nth k (l_nss st) None) c = Done (body e c).
+Proof.
+  intros E C R sha1_hex package_name h Hhex.
+  pose proof (loads_fresh E sha1_hex Hhex package_name h l_empty) as H.
+  destruct (loads sha1_hex package_name l_empty h) as [st ids].
+  destruct H as [H1 [H2 _]]; [intros a i []|]. cbn [l_nss l_empty app length] in *.
+  split; [exact H2|]. split; [exact H1|].
+  intros k n e body c fd Hk Hd. injection Hd as <-. rewrite H1.
+  assert (Hn : nth k (map (fun ne : str * E => Some (snd ne)) h) None = Some e).
+  { apply nth_error_nth. now rewrite nth_error_map, Hk. }
+  rewrite Hn. reflexivity.
+Qed.
+Print Assumptions C31_shared_loader_own_environment.
 
 Example C31_example :
   probe_case true None (Some 7%N) = Some (Done 7%N) /\ probe_case false (Some 7%N) None = Some (Done 7%N) /\
